@@ -72,6 +72,15 @@ def eval_construct(case):
             return {"violations": [], "outcome": "n/a"}
     if branch == "long" and not all(k in tb for k in LONG):
         return {"violations": [], "outcome": "n/a"}
+    if branch == "simple" and case.get("both"):
+        # the simple-liquid variant re-wrapping a table that already carries an 'alpha' column (e.g. another wrapper's
+        # pvt_props after viscosity was updated): its diffusivity is still 1/(c mu) of the CURRENT columns
+        stale = 3.0 / (np.asarray(tb["compressibility"]) * np.asarray(tb["viscosity"])) ** 0.5
+        if container == "frame":
+            tb = tb.copy()
+        else:
+            tb = dict(tb)
+        tb["alpha"] = stale
     if branch == "alpha" and case.get("both"):  # all long columns AND a user alpha column: the user's alpha is used
         a_user = 3.0 / (np.asarray(tb["compressibility"]) * np.asarray(tb["viscosity"])) ** 0.5
         ok = np.asarray(tb["pseudopressure"]) > 0
@@ -294,6 +303,7 @@ def cases(tier, seed):
                         "rows": "irregular", "seed": seed})
     for t, c, w in itertools.product(["T_ship_gas", "S_zdip"], ["frame", "dict"], ["node", "mid", "last"]):
         out.append({"kind": "construct", "table": t, "container": c, "branch": "alpha", "where": w, "off": off, "both": True})
+        out.append({"kind": "construct", "table": t, "container": c, "branch": "simple", "where": w, "off": off, "both": True})
     for t, c, b in itertools.product(["T_ship_gas", "A_kink"], ["frame", "dict"], ["long", "alpha", "simple"]):
         for drop in {"long": LONG, "alpha": SHORT, "simple": SIMPLE}[b]:
             out.append({"kind": "missing", "table": t, "container": c, "branch": b, "drop": drop})
